@@ -598,8 +598,102 @@ let cmd_api () : unit =
       (string_of_coq f.ApiSig.f_body)) ApiSig.api;
   Printf.printf "none_send=%b db_shareable=%b\n" ApiFlow.none_send ApiFlow.db_shareable
 
+(* ---------- the write-path engine model, page for page against the library's files ---------- *)
+let fmt_engine_body (d : Engine.ndata) : string =
+  match d with
+  | Engine.Leaves l -> "L " ^ S.concat " " (L.map (fun e -> match e with
+      | Engine.LKv (k, v) -> "kv:" ^ hex k ^ ":" ^ hex v
+      | Engine.LBk (k, r, n) -> "bk:" ^ hex k ^ ":" ^ string_of_n r ^ ":" ^ string_of_n n) l)
+  | Engine.Branches es -> "B " ^ S.concat " " (L.map (fun (k, p) -> hex k ^ ">" ^ string_of_n p) es)
+let fmt_codec_body (b : Codec.pbody) : string =
+  match b with
+  | Codec.PLeaf l -> "L " ^ S.concat " " (L.map (fun e -> match e with
+      | Codec.EKv (k, v) -> "kv:" ^ hex k ^ ":" ^ hex v
+      | Codec.EBk (k, r, n) -> "bk:" ^ hex k ^ ":" ^ string_of_n r ^ ":" ^ string_of_n n) l)
+  | Codec.PBranch es -> "B " ^ S.concat " " (L.map (fun (k, p) -> hex k ^ ">" ^ string_of_n p) es)
+  | Codec.PFree ids -> "F " ^ fmt_ids ids
+
+(* canonical page listing of the tree reachable from root (nested buckets included), from the model *)
+let rec engine_pages (st : Engine.db) (root : coq_N) (acc : (int * string) list ref) (fuel : int) : unit =
+  if fuel <= 0 then () else
+  match Engine.dget st.Engine.d_disk root with
+  | None -> acc := (int_of_n root, "MISSING") :: !acc
+  | Some a ->
+      acc := (int_of_n root, string_of_n a.Engine.ap_over ^ " " ^ fmt_engine_body a.Engine.ap_body) :: !acc;
+      (match a.Engine.ap_body with
+       | Engine.Branches es -> L.iter (fun (_, p) -> engine_pages st p acc (fuel - 1)) es
+       | Engine.Leaves l -> L.iter (fun e -> match e with Engine.LBk (_, r, _) -> engine_pages st r acc (fuel - 1) | _ -> ()) l)
+let rec file_pages (rd : Codec.reader) (p : coq_N) (root : coq_N) (acc : (int * string) list ref) (fuel : int) : unit =
+  if fuel <= 0 then () else
+  match Codec.decode_page rd p root with
+  | Codec.Bad m -> acc := (int_of_n root, "BAD:" ^ string_of_coq m) :: !acc
+  | Codec.Ok (h, b) ->
+      acc := (int_of_n root, string_of_n h.Codec.ph_overflow ^ " " ^ fmt_codec_body b) :: !acc;
+      (match b with
+       | Codec.PBranch es -> L.iter (fun (_, q) -> file_pages rd p q acc (fuel - 1)) es
+       | Codec.PLeaf l -> L.iter (fun e -> match e with Codec.EBk (_, r, _) -> file_pages rd p r acc (fuel - 1) | _ -> ()) l
+       | _ -> ())
+
+let path_of (s : string) : Byte.byte list list =
+  L.map tok (L.filter (fun x -> x <> "") (S.split_on_char '/' s))
+
+(* engine <pagesize> <script>: replays write transactions in the model and compares every committed state with the file *)
+let cmd_engine (ps : int) (script : string) : unit =
+  let p = n_of_int ps in
+  let st = ref (Engine.init_db p) in
+  let ops : Engine.op list ref = ref [] in
+  let ord : Byte.byte list list ref = ref [] in
+  let n = ref 0 and compared = ref 0 and exact = ref 0 in
+  let stop = ref false in
+  L.iter (fun line ->
+    incr n;
+    if !stop then () else
+    match L.filter (fun x -> x <> "") (S.split_on_char ' ' (S.trim line)) with
+    | ["tx"] -> ops := []; ord := []
+    | ["T"; path] -> ops := !ops @ [Engine.Touch (path_of path)]
+    | ["P"; path; k; v] -> ops := !ops @ [Engine.Put (path_of path, tok k, tok v)]
+    | ["D"; path; k] -> ops := !ops @ [Engine.Del (path_of path, tok k)]
+    | ["X"; path; name] -> ops := !ops @ [Engine.DelB (path_of path, tok name)]
+    | "ord" :: names -> ord := L.map tok names
+    | ["rollback"] -> ops := []
+    | ["reopen"] -> st := Engine.reopen_db !st
+    | ["commit"; file] ->
+        (match Engine.run_tx !st !ops !ord with
+         | Engine.Ok st' ->
+             st := st';
+             incr compared;
+             let s = read_file file in
+             let rd = reader_of_string s in
+             (match Tree.open_db rd p with
+              | Codec.Bad m -> Printf.printf "DIFF line=%d file does not open: %s\n" !n (string_of_coq m); stop := true
+              | Codec.Ok o ->
+                  let m = o.Tree.o_meta in
+                  let hdr_file = Printf.sprintf "root=%s next=%s np=%s fl=%s tx=%s free=%s" (string_of_n m.Meta.m_root) (string_of_n m.Meta.m_next)
+                      (string_of_n m.Meta.m_np) (string_of_n m.Meta.m_fl) (string_of_n m.Meta.m_tx) (fmt_ids o.Tree.o_free) in
+                  let hdr_model = Printf.sprintf "root=%s next=%s np=%s fl=%s tx=%s free=%s" (string_of_n st'.Engine.d_root) (string_of_n st'.Engine.d_next)
+                      (string_of_n st'.Engine.d_np) (string_of_n st'.Engine.d_fl) (string_of_n st'.Engine.d_tx) (fmt_ids st'.Engine.d_flids) in
+                  let a = ref [] and b = ref [] in
+                  engine_pages st' st'.Engine.d_root a 100000;
+                  file_pages rd p m.Meta.m_root b 100000;
+                  let sa = L.sort compare !a and sb = L.sort compare !b in
+                  if hdr_file <> hdr_model then begin
+                    Printf.printf "DIFF line=%d header/free list: model `%s` file `%s`\n" !n hdr_model hdr_file; stop := true end
+                  else if sa <> sb then begin
+                    let rec first l1 l2 = match l1, l2 with
+                      | x :: r1, y :: r2 -> if x = y then first r1 r2 else (Some x, Some y)
+                      | x :: _, [] -> (Some x, None) | [], y :: _ -> (None, Some y) | [], [] -> (None, None) in
+                    let show o = match o with Some (i, t) -> Printf.sprintf "page %d: %s" i (if S.length t > 120 then S.sub t 0 120 else t) | None -> "-" in
+                    let (x, y) = first sa sb in
+                    Printf.printf "DIFF line=%d pages: model `%s` file `%s`\n" !n (show x) (show y); stop := true end
+                  else incr exact)
+         | Engine.Panic msg -> Printf.printf "DIFF line=%d model panics: %s\n" !n (string_of_coq msg); stop := true
+         | Engine.Err msg -> Printf.printf "DIFF line=%d model error: %s\n" !n (string_of_coq msg); stop := true)
+    | _ -> ()) (read_lines script);
+  Printf.printf "done commits=%d exact=%d\n" !compared !exact
+
 let () =
   match Array.to_list Sys.argv with
+  | _ :: "engine" :: ps :: script :: _ -> cmd_engine (int_of_string ps) script
   | _ :: "api" :: _ -> cmd_api ()
   | _ :: "spec" :: hist :: fout :: eout :: _ -> cmd_spec hist fout eout
   | _ :: "select" :: ps :: files -> cmd_select (int_of_string ps) files
